@@ -16,6 +16,7 @@ import PowHsm.Spec.C09
 import PowHsm.Spec.C10
 import PowHsm.Spec.Cert
 import PowHsm.Admin.CertParse
+import PowHsm.Admin.Verify
 namespace PowHsm
 namespace Ops
 open Ledger Comm Dongle Spec
@@ -241,6 +242,56 @@ def certload (input implOut : Json) : Option (Json × Bool) := do
             ("verdicts", verdicts), ("roundtrip", .str "same")]
   pure (model, model.normalize == implOut.normalize)
 
+/-- C08: the verify commands.  The certificate verdicts come from the chain model with the
+    per-case link table; the oracle is equality of (finished without error, printed fields). -/
+def verify (input implOut : Json) : Option (Json × Bool) := do
+  let hx (b : Bytes) : Json := .str (Bytes.toHex b)
+  let str (b : Bytes) : Json := .str (String.ofList (b.map fun c => Char.ofNat c.toNat))
+  let fail : Json := .obj [("ok", .bool false)]
+  let loaded := (input.get? "loaded_ok").bind Json.asBool? == some true
+  let root ← (← input.get? "root").asStr?
+  let els ← Spec.CertOps.elemsOfJson (input.get? "elements")
+  let targets ← (← (← input.get? "targets").asArr?).mapM Json.asStr?
+  let pkh ← (← input.get? "pubkeys_hash").asBytes?
+  let tvOf (name k1 k2 : String) : Verify.TV :=
+    if !targets.contains name then .absent
+    else match Cert.validateTarget root els (Spec.CertOps.linkTable (input.get? "links")) name with
+      | some (.valid leaf) =>
+        match (input.get? "values").bind (·.get? leaf.name) with
+        | some v =>
+          match (v.get? k1).bind Json.asBytes?, (v.get? k2).bind Json.asBytes? with
+          | some a, some b => .valid a b
+          | _, _ => .invalid
+        | none => .invalid
+      | _ => .invalid
+  -- any target whose chain walk fails altogether makes the whole call fail
+  let walkOk := targets.all fun t => (Cert.validateTarget root els (Spec.CertOps.linkTable (input.get? "links")) t).isSome
+  let pmFields (pm : Verify.PowHsmMsg) : List (String × Json) :=
+    [("platform", str pm.platform), ("ud2", hx pm.udValue), ("best_block", hx pm.bestBlock),
+     ("last_tx", hx pm.lastSignedTx), ("timestamp", .int pm.timestamp)]
+  let model : Json :=
+    if !loaded || !walkOk then fail
+    else if (input.get? "platform") == some (.str "sgx") then
+      match Verify.verifySgx pkh (tvOf "quote" "message" "quote") with
+      | none => fail
+      | some p => .obj [("ok", .bool true), ("printed", .obj ([("hash", hx p.pubkeysHash),
+          ("mrenclave", hx p.mrenclave), ("mrsigner", hx p.mrsigner), ("version", str p.powhsm.version)]
+          ++ pmFields p.powhsm))]
+    else
+      let pks : List Verify.Pubkey := match input.get? "pubkeys" with
+        | some (.arr xs) => xs.filterMap fun x => match x with
+            | .arr [.str path, c] => c.asBytes?.map fun cb => { path := path, compressed := cb }
+            | _ => none
+        | _ => []
+      match Verify.verifyLedger pks pkh (tvOf "ui" "value" "tweak") (tvOf "signer" "value" "tweak") with
+      | none => fail
+      | some p => .obj [("ok", .bool true), ("printed", .obj ([("ud", hx p.udValue), ("ui_pubkey", hx p.uiPubKey),
+          ("signer_hash_auth", hx p.signerHashAuth), ("iteration", .int p.signerIteration),
+          ("ui_hash", hx p.uiHash), ("ui_version", str p.uiVersion), ("hash", hx p.pubkeysHash),
+          ("signer_hash", hx p.signerHash), ("signer_version", str p.signerVersion)]
+          ++ (match p.powhsm with | some pm => pmFields pm | none => [])))]
+  pure (model, model.normalize == implOut.normalize)
+
 def run (op : String) (input implOut : Json) : Option (Json × Bool) :=
   match op with
   | "unsign" => unsign input implOut
@@ -269,6 +320,7 @@ def run (op : String) (input implOut : Json) : Option (Json × Bool) :=
   | "pinrun" => pinrun input implOut
   | "certvalidate" => certvalidate input implOut
   | "certload" => certload input implOut
+  | "verify" => verify input implOut
   | _ => none
 
 end Ops
